@@ -6,4 +6,4 @@ Import ListNotations.
 Definition holds (c : tcase) (l : list tr) : list string :=
   filter (has_tag ["C02:"; "C20:"]%string) (monitor c l) ++
   (if within_time c l then [] else ["C02:time_bound"%string]).
-Definition entry := tftp_entry holds proj_timing.
+Definition entry := tftp_entry validb holds proj_timing.
